@@ -1,4 +1,5 @@
 import VivProofs.TopologyApply
+import VivProofs.TopologyMulti
 /-!
 # C06 — a port reads and writes the same store node, for every topology
 
@@ -157,5 +158,83 @@ example :
   refine ⟨?_, rfl, rfl, rfl⟩
   exact .port (sub := exG) (by simp) (by decide)
     (.glob (sub := exGsub) (by simp) (.port (sub := exLeaf) (by simp) (by decide) (.leaf _)))
+
+/-- **Several variables → one node: every update is applied** — proved for the F5 shape, two leaf
+ports `p1`, `p2` wired (by tuple paths, `..` allowed) to one variable `a = init ++ [last]`: the
+inverted update carries BOTH values under `_multi_update`, and applying it leaves
+`f(f(old, u1), u2)` in `a` and changes nothing else.
+
+PARTIAL.  Full statement (C06): for every well-formed topology and every `n ≥ 2` port variables
+`v₁ … v_n` of one process whose views reference the same node `a` (through any mix of leaf ports,
+dictionary ports, `_path` dictionaries and glob ports), the inverted update carries all `n` values
+and `a` ends at `f(…f(f(old,u₁),u₂)…,u_n)` (in topology order).  Missing: the induction over `n`
+and over the other port forms (merging into a partially built `inverse` dictionary); those are
+covered by the harness oracle (`multi:` checks, up to 9 variables over all port forms) and the
+model/implementation correspondence, not by a theorem. -/
+theorem multi_two_applied_partial (f : Val → Val → Except Err Val) (t n : Tree) (outer : Path)
+    (p1 p2 : String) (q1 q2 init : Path) (last : String) (u1 u2 x1 x2 : Val)
+    (hp : p1 ≠ p2) (hp1 : p1 ≠ "*") (hp2 : p2 ≠ "*")
+    (h1 : normalize (outer ++ q1) = init ++ [last]) (h2 : normalize (outer ++ q2) = init ++ [last])
+    (hu1 : u1.isDict = false) (hu2 : u2.isDict = false)
+    (hm : "_multi_update" ∉ init ++ [last]) (hnode : t.find (init ++ [last]) = some n)
+    (hn : n.IsVariable) (hf1 : f n.value u1 = .ok x1) (hf2 : f x1 u2 = .ok x2) :
+    invertTopology outer [(p1, .path q1), (p2, .path q2)] (.dict [(p1, u1), (p2, u2)]) =
+      .ok (nest init (.dict [(last, .dict [("_multi_update", .list [u1, u2])])])) ∧
+    applyUpdate f (nest init (.dict [(last, .dict [("_multi_update", .list [u1, u2])])])) t =
+      .ok (t.modifyAt (fun m => m.setValue x2) (init ++ [last])) := by
+  constructor
+  · have hne : ¬ (p1 = p2) := hp
+    have hne' : ¬ (p2 = p1) := fun e => hp e.symm
+    have e1 : invTuple outer q1 u1 (.dict []) = .ok (nest init (.dict [(last, u1)])) := by
+      have := invTuple_single outer q1 [] u1 hu1 (by simp [h1])
+      simpa [nest, h1, nest_append] using this
+    have e2 : invTuple outer q2 u2 (nest init (.dict [(last, u1)])) =
+        .ok (nest init (.dict [(last, .dict [("_multi_update", .list [u1, u2])])])) := by
+      unfold invTuple
+      simp only [h2, List.reverse_append, List.reverse_cons, List.reverse_nil, List.nil_append,
+        List.singleton_append, List.reverse_reverse]
+      cases u2 <;> simp [Val.isDict] at hu2 <;>
+        exact updateIn_nest _ init _ _ (mergeMulti_collide last u1 _ hu1)
+    unfold invertTopology
+    rw [inverse]
+    simp only [Bool.false_and, Bool.false_eq_true, if_false, hp1, KV.lookup, if_true, inverseValue, e1]
+    rw [inverse]
+    simp only [Bool.false_and, Bool.false_eq_true, if_false, hp2, KV.lookup, hne, if_true,
+      inverseValue, e2, inverse]
+  · have hw := applyUpdate_multi_two f n u1 u2 x1 x2 hu1 hu2 hn hf1 hf2
+    have hk : last ≠ "_multi_update" := fun e => hm (by simp [e])
+    have hmi : "_multi_update" ∉ init := fun h => hm (by simp [h])
+    have := applyUpdate_nest_gen f (.dict [("_multi_update", .list [u1, u2])]) (init ++ [last]) t n
+      (n.setValue x2) hm hnode hw
+    rw [nest_append] at this
+    simp only [nest] at this
+    rw [this]
+    -- `modifyAt` with a constant equals `modifyAt` with `setValue` at a node that is `n`
+    have hmod : ∀ (a : Path) (t : Tree), t.find a = some n →
+        t.modifyAt (fun _ => n.setValue x2) a = t.modifyAt (fun m => m.setValue x2) a := by
+      intro a
+      induction a with
+      | nil => intro t h; simp [Tree.find] at h; subst h; rfl
+      | cons k rest ih =>
+        intro t h
+        simp only [Tree.find] at h
+        cases hc : AL.get k t.kids with
+        | none => simp [hc] at h
+        | some c =>
+          simp only [hc, Option.bind_some] at h
+          simp only [Tree.modifyAt, hc, ih c h]
+    rw [hmod _ t hnode]
+
+/-- non-vacuity (the pre-fix witness F5): ports `a`, `b` of a process at the root, both wired to
+`S/x` (one through `T/..`), updates 1 and 10 on a value 5 → 16 -/
+example :
+    let t : Tree := .node false .none false
+      [("S", .node false .none false [("x", .node true (.int 5) false [])]),
+       ("T", .node false .none false [])]
+    (applyUpdate accumulate
+        (nest ["S"] (.dict [("x", .dict [("_multi_update", .list [.int 1, .int 10])])])) t).toOption.bind
+      (·.find ["S", "x"]) = some (.node true (.int 16) false []) ∧
+    normalize ([] ++ ["T", "..", "S", "x"]) = ["S"] ++ ["x"] := by
+  constructor <;> rfl
 
 end VivProps.C06
